@@ -11,4 +11,5 @@ timeout 3000 make -j16 2>&1 | tail -15
 cd ..
 ./tools/build_runner.sh
 ./tools/build_harness.sh
+./tools/build_harness_ffi.sh
 echo "setup ok"
